@@ -1132,8 +1132,11 @@ class Converter:
         def ret(exp, i, suffix):
             preferred_name = f"return_val{suffix}"
             return_var = self._translate_expr(exp, preferred_name)
-            if return_var.is_graph_input():
-                # In ONNX, a graph-input cannot be an output of the graph.
+            if return_var.is_graph_input() or (
+                self._outer and return_var.name not in self._current_fn.assigned_names
+            ):
+                # In ONNX, a graph-input cannot be an output of the graph, and neither can a
+                # value of an enclosing graph be the output of a nested graph.
                 # We need to insert a copy.
                 return_var = self._emit_copy(return_var, preferred_name)
             for prev_output in self._current_fn.outputs:
